@@ -366,7 +366,15 @@ func (dsp *DataStreamProcessor) edgeMultiTriggerComputeAppend(records []*DataRec
 	stream := dsp.stream
 	recordSpecs := dsp.EMTState.edgeMultiComputeRecordSpecs(stream.rawData, stream.firstFrameIndex)
 	for _, recordSpec := range recordSpecs {
-		record := dsp.triggerAtSpecificSamples(int(recordSpec.firstRisingFrameIndex-stream.firstFrameIndex), int(recordSpec.npre), int(recordSpec.nsamp))
+		i := int(recordSpec.firstRisingFrameIndex - stream.firstFrameIndex)
+		start := i - int(recordSpec.npre)
+		if start < 0 || start+int(recordSpec.nsamp) > len(stream.rawData) {
+			// The edge was found before the source lost data: the frame numbers of the samples still held
+			// have jumped since, and the record can no longer be cut from them. Skip it (cutting it would
+			// index outside the stream and end the server).
+			continue
+		}
+		record := dsp.triggerAtSpecificSamples(i, int(recordSpec.npre), int(recordSpec.nsamp))
 		records = append(records, record)
 	}
 	return records
